@@ -489,7 +489,16 @@ AnyP::Uri::parse(const HttpRequestMethod& method, const SBuf &rawUrl)
             if (t && *t == ':') {
                 *t = '\0';
                 ++t;
-                foundPort = atoi(t);
+                // port = *DIGIT. Unlike atoi(), do not skip whitespace, accept
+                // signs, ignore trailing garbage, or wrap huge values.
+                foundPort = 0; // an empty port is rejected by the range check below
+                for (; *t; ++t) {
+                    if (!xisdigit(*t) || foundPort > 65535) {
+                        debugs(23, 3, "Invalid port in '" << rawUrl << "'");
+                        return false;
+                    }
+                    foundPort = foundPort * 10 + (*t - '0');
+                }
             }
         }
 
